@@ -1,8 +1,7 @@
 /* C11 (relational, bounded): the real hard-link filter (lib/sqfs/src/io/
  * dir_hl.c: sqfs_hard_link_filter_create, next, detect_hard_link,
- * store_hard_link) over the real rbtree (lib/util/src/rbtree.c, built with
- * the project's NO_CUSTOM_ALLOC option so that nodes come from calloc = the
- * typed-object contract below). Two runs over the same two directory
+ * store_hard_link) over the rbtree contract below (finite map; the real
+ * compare_inum decides key equality). Two runs over the same two directory
  * entries A and B (regular files, names of NLEN symbolic bytes, distinct),
  * delivered by the source-iterator contract in the order A,B in run 1 and
  * B,A in run 2 - what readdir on two different file systems does.
@@ -35,36 +34,102 @@
 #define SAMEKEY 1
 #endif
 
-/* ---- allocation contract: typed objects, run-local pools ----------------- */
-struct rbn {
-	rbtree_node_t n;
-	sqfs_u8 room[16 + sizeof(char *)];
-};
-struct hlobj {
-	sqfs_u8 bytes[160]; /* hl_iterator_t is private to dir_hl.c */
-};
-static struct rbn g_rbn[4];
-static unsigned g_rbn_used;
-static struct hlobj g_hl[2] __attribute__((aligned(16)));
-static unsigned g_hl_used;
-static char g_str[6][NLEN + 1];
-static unsigned g_str_used;
-
 #ifdef VERIF_REPLAY
 #define calloc c11_calloc
 #define free c11_free
 #define strdup c11_strdup
+void *calloc(size_t n, size_t sz);
+void free(void *p);
+char *strdup(const char *s);
 #endif
+
+/* ---- rbtree contract ---------------------------------------------------
+ * The filter uses the tree as a finite map (dev, inode) -> first path seen.
+ * cbmc 6.11 aborts ("bv_to_array_expr" invariant) on the real rbtree.c node
+ * layout here (key and value are memcpy'd into / cast out of a byte array
+ * behind the node header), so the map is replaced by its contract: at most
+ * RB_MAX entries, typed; insert appends (it may not fail here), lookup
+ * returns the entry whose key compares equal under the tree's own
+ * key_compare hook (the real compare_inum), else NULL; the value is reachable
+ * through the real rbtree_node_value() accessor. Balancing is not part of
+ * any claim of C11. */
+#define RB_MAX 2
+struct rbent {
+	rbtree_node_t n;
+	struct {
+		sqfs_u64 k[2];
+		char *val;
+	} d;
+};
+static struct rbent g_rb[2][RB_MAX];
+static unsigned g_rb_n[2];
+static unsigned g_rb_trees;
+
+int rbtree_init(rbtree_t *tree, size_t keysize, size_t valuesize,
+		int(*key_compare)(const void *, const void *, const void *))
+{
+	VERIF_ASSERT(keysize == 16 && valuesize == sizeof(char *) &&
+		     g_rb_trees < 2, "C11.env.rbtree_pre");
+	memset(tree, 0, sizeof(*tree));
+	tree->key_compare = key_compare;
+	tree->key_size = keysize;
+	tree->key_size_padded = keysize;
+	tree->value_size = valuesize;
+	/* which map this tree is: kept in the (otherwise unused) context */
+	tree->key_context = &g_rb_n[g_rb_trees++];
+	return 0;
+}
+
+static unsigned rb_id(const rbtree_t *tree)
+{
+	return tree->key_context == &g_rb_n[0] ? 0 : 1;
+}
+
+int rbtree_insert(rbtree_t *tree, const void *key, const void *value)
+{
+	unsigned t = rb_id(tree);
+	struct rbent *e;
+
+	VERIF_ASSERT(g_rb_n[t] < RB_MAX, "C11.env.rbtree_pre");
+	e = &g_rb[t][g_rb_n[t]++];
+	e->n.left = NULL;
+	e->n.right = NULL;
+	e->n.value_offset = 16;
+	e->d.k[0] = ((const sqfs_u64 *)key)[0];
+	e->d.k[1] = ((const sqfs_u64 *)key)[1];
+	e->d.val = *(char *const *)value;
+	if (tree->root == NULL)
+		tree->root = &e->n;
+	return 0;
+}
+
+rbtree_node_t *rbtree_lookup(const rbtree_t *tree, const void *key)
+{
+	unsigned t = rb_id(tree), i;
+
+	for (i = 0; i < g_rb_n[t]; ++i) {
+		if (tree->key_compare(NULL, key, g_rb[t][i].d.k) == 0)
+			return &g_rb[t][i].n;
+	}
+	return NULL;
+}
+
+void rbtree_cleanup(rbtree_t *tree)
+{
+	(void)tree;
+}
+#include "lib/sqfs/src/io/dir_hl.c"
+
+/* ---- allocation contract: typed objects, run-local pools ----------------- */
+static hl_iterator_t g_hl[2];
+static unsigned g_hl_used;
+static char g_str[6][NLEN + 1];
+static unsigned g_str_used;
 
 void *calloc(size_t n, size_t sz)
 {
 	VERIF_ASSERT(n == 1, "C11.env.calloc_pre");
-	if (sz == sizeof(rbtree_node_t) + 16 + sizeof(char *)) {
-		VERIF_ASSERT(g_rbn_used < 4, "C11.env.calloc_pre");
-		memset(&g_rbn[g_rbn_used], 0, sizeof(g_rbn[0]));
-		return &g_rbn[g_rbn_used++];
-	}
-	VERIF_ASSERT(sz <= sizeof(g_hl[0]) && g_hl_used < 2,
+	VERIF_ASSERT(sz == sizeof(g_hl[0]) && g_hl_used < 2,
 		     "C11.env.calloc_pre");
 	memset(&g_hl[g_hl_used], 0, sizeof(g_hl[0]));
 	return &g_hl[g_hl_used++];
@@ -94,8 +159,6 @@ void sqfs_free(void *p)
 	(void)p;
 }
 
-#include "lib/util/src/rbtree.c"
-#include "lib/sqfs/src/io/dir_hl.c"
 
 /* ---- source iterator contract --------------------------------------------- */
 struct dent {
@@ -296,5 +359,5 @@ void harness(void)
 			     "C11.hl.distinct_unchanged");
 	}
 #endif
-	VERIF_COVER(g_rbn_used >= 2);
+	VERIF_COVER(g_rb_n[0] >= 1 && g_rb_n[1] >= 1);
 }
